@@ -376,7 +376,67 @@ def extract(build, g):
     st.head = head
     st.max_head = max(head.values())
     st.unit_of = {c["id"]: c["unit"] for c in classes}
+    dag_budget(st, g)
     return st
+
+
+def dag_budget(st, g):
+    """session 4: compose the per-SCC budgets along the SCC DAG instead of summing all of them.
+      reach      for every recursive SCC i the set R_i of ALL functions reachable from it over every call edge of the module
+                 (UNTRUSTED bit masks over the function list; Lean re-checks closure: `reachOK`), and the claimed pairs
+                 (i, j): some member of SCC j is in R_i
+      sccLimits  per SCC and class id: live guard frames the class allows, 0 when the class has no function in the SCC
+      sccBudget  maxHead + sum_c sccLimits[i][c] * unit[c]
+      spot       UNTRUSTED potential over the SCC DAG: spot[i] >= sccBudget[i] + spot[j] for every claimed (i, j)"""
+    allf = sorted(g.ir.funcs)
+    gi = {n: k for k, n in enumerate(allf)}
+    succ = {}
+    for (a, b) in g.all_edges:
+        succ.setdefault(a, []).append(b)
+    st.all_n = len(allf)
+    st.all_edges = sorted((gi[a], gi[b]) for (a, b) in g.all_edges)
+    st.members = [[gi[f] for f in comp] for comp in g.comps]
+    masks, reach_sets = [], []
+    for comp in g.comps:
+        seen, todo = set(comp), list(comp)
+        while todo:
+            v = todo.pop()
+            for w in succ.get(v, ()):
+                if w not in seen:
+                    seen.add(w)
+                    todo.append(w)
+        reach_sets.append(seen)
+        masks.append(sum(1 << gi[f] for f in seen))
+    st.reach_masks = masks
+    n = len(g.comps)
+    st.claimed = sorted((i, j) for i in range(n) for j in range(n) if i != j and any(f in reach_sets[i] for f in g.comps[j]))
+    if any((j, i) in set(st.claimed) for (i, j) in st.claimed):
+        raise ExtractError("two recursive SCCs reach each other (SCC computation inconsistent)")
+    K = len(st.classes) + 1
+    lim = {c["id"]: class_limit(c) for c in st.classes}
+    st.scc_limits = []
+    for i, comp in enumerate(g.comps):
+        present = set(st.class_id[st.cls_of[f]] for f in comp if f in st.cls_of)
+        st.scc_limits.append([lim[c] if c in present else 0 for c in range(K)])
+    unit = [0] + [c["unit"] for c in st.classes]
+    st.scc_budget = [st.max_head + sum(st.scc_limits[i][c] * unit[c] for c in range(K)) for i in range(n)]
+    succs = {i: [j for (a, j) in st.claimed if a == i] for i in range(n)}
+    spot = {}
+
+    def sp(i):
+        if i not in spot:
+            spot[i] = st.scc_budget[i] + max([sp(j) for j in succs[i]] or [0])
+        return spot[i]
+    st.spot = [sp(i) for i in range(n)]
+    st.dag_total = st.transit + LIBC_ALLOWANCE + max(st.spot)
+    # heaviest path, for the evidence
+    path, i = [], max(range(n), key=lambda k: st.spot[k])
+    while True:
+        path.append(i)
+        if not succs[i]:
+            break
+        i = max(succs[i], key=lambda k: st.spot[k])
+    st.dag_path = [(k, g.comps[k][0], st.scc_budget[k]) for k in path]
 
 
 HOW = {"global": 0, "outside": 0, "assumed": 0, "pool": 2, "pool-unshared": 3, "out-of-scope": 4}
@@ -396,7 +456,7 @@ def budget(st, g):
 
 def render(st, g, tree_desc="current tree"):
     idx = {n: i for i, n in enumerate(g.nodes)}
-    L = ["import JanetModel.Depth.Stack",
+    L = ["import JanetModel.Depth.Stack\nimport JanetModel.Depth.StackDag",
          lean_header("tools/gen/cgstack.py; gcc -fstack-usage on src/core/*.c with the flags of the `plain` and `nohooks` variants, " + tree_desc)]
     L.append("namespace JanetModel.Gen.DepthStack\n")
 
@@ -439,6 +499,27 @@ def render(st, g, tree_desc="current tree"):
     L.append("abbrev libcAllowance : Nat := %d" % LIBC_ALLOWANCE)
     L.append("abbrev stackLimit : Nat := %d" % STACK_LIMIT)
     L.append("abbrev recursionGuard : Nat := %d" % g.limits["JANET_RECURSION_GUARD"])
+    idxc = {n: i for i, n in enumerate(g.nodes)}
+    L.append("\n/-- session 4: SCC index of every function of `Gen.Depth.names` -/")
+    L.append("abbrev sccOfNode : List Nat := [%s]" % ", ".join(str(g.comp_of[n]) for n in g.nodes))
+    L.append("/-- per SCC and class id: live guard frames allowed (0 = the class has no function in this SCC) -/")
+    L.append("abbrev sccLimits : List (List Nat) := [%s]" % ", ".join("[%s]" % ", ".join(str(x) for x in row) for row in st.scc_limits))
+    L.append("/-- per SCC: maxHead + sum over classes of sccLimits x unit -/")
+    L.append("abbrev sccBudget : List Nat := [%s]" % ", ".join(str(x) for x in st.scc_budget))
+    L.append("/-- UNTRUSTED potential over the SCC DAG -/")
+    L.append("abbrev sccSpot : List Nat := [%s]" % ", ".join(str(x) for x in st.spot))
+    L.append("/-- reachability certificate over ALL %d functions of the module (indices = position in the sorted function list) -/" % st.all_n)
+    es = st.all_edges
+    chunks = [es[i:i + 800] for i in range(0, len(es), 800)]
+    for ci, ch in enumerate(chunks):       # one literal of 6 000+ pairs exceeds the elaborator's recursion depth
+        L.append("def allEdges%d : List (Nat × Nat) := [\n" % ci + ",\n".join("    " + ", ".join("(%d, %d)" % e for e in ch[i:i + 14]) for i in range(0, len(ch), 14)) + "]")
+    L.append("def reachCert : JanetModel.Depth.ReachCert := {")
+    L.append("  n := %d," % st.all_n)
+    L.append("  edges := %s," % " ++ ".join("allEdges%d" % ci for ci in range(len(chunks))))
+    L.append("  members := [%s]," % ", ".join("[%s]" % ", ".join(str(x) for x in m) for m in st.members))
+    L.append("  masks := [\n" + ",\n".join("    %d" % m for m in st.reach_masks) + "],")
+    L.append("  claimed := [%s] }" % ", ".join("(%d, %d)" % e for e in st.claimed))
+    L.append("/- heaviest SCC path: %s; total %d of %d -/" % (" -> ".join("%d:%s(%d)" % p for p in st.dag_path), st.dag_total, STACK_LIMIT))
     L.append("abbrev dynamicUnbounded : List String := [%s]" % ", ".join('"%s"' % f for f in st.unbounded))
     tot, parts = budget(st, g)
     L.append("\n/- classes (unit = bytes per charged level; budget = live frames allowed x unit):")
